@@ -33,7 +33,7 @@ func Harness_C06_Close() {
 	vAssert("attached", a != nil && b != nil && c != nil)
 	b.send(&wamp.Register{Request: 1, Procedure: "b.proc"})
 	b.drain()
-	situation := vChoice("situation", 4)
+	situation := vChoice("situation", 6)
 	switch situation {
 	case 0: // idle sessions
 	case 1: // subscriptions and a registration
@@ -47,11 +47,32 @@ func Harness_C06_Close() {
 		a.send(&wamp.Call{Request: 3, Procedure: "b.proc"})
 		a.drain()
 		b.drain()
+	case 4: // a pending call with a long router-side timeout whose caller has left
+		a.send(&wamp.Call{Request: 3, Procedure: "b.proc", Options: wamp.Dict{"timeout": int64(2000)}})
+		a.drain()
+		b.drain()
+		a.send(&wamp.Goodbye{Reason: wamp.CloseRealm, Details: wamp.Dict{}})
+		a.drain()
+	case 5: // the same, the callee has left
+		a.send(&wamp.Call{Request: 3, Procedure: "b.proc", Options: wamp.Dict{"timeout": int64(2000)}})
+		a.drain()
+		b.drain()
+		b.send(&wamp.Goodbye{Reason: wamp.CloseRealm, Details: wamp.Dict{}})
+		b.drain()
+		a.drain()
 	}
+	t0 := vNow()
 	r.Close()
+	// Close does not wait for anybody's timeout
+	vAssert("close-returns-without-waiting-for-call-timeouts", vNow()-t0 < 1500*1000000)
 	vCover("close-returned")
+	if situation == 4 {
+		a = c // a has left already
+	}
 	vAssert("client-a-told-shutdown", vGotShutdownOrClosed(a))
-	vAssert("client-b-told-shutdown", vGotShutdownOrClosed(b))
+	if situation != 5 {
+		vAssert("client-b-told-shutdown", vGotShutdownOrClosed(b))
+	}
 	vAssert("client-c-told-shutdown", vGotShutdownOrClosed(c))
 	// a timer of the call that was pending may still expire: never a panic later
 	for vFireTimer() {
@@ -182,4 +203,136 @@ func Harness_C06_CloseDuringPublish() {
 	<-closed
 	vQuiesce()
 	vCover("close-during-publish-done")
+}
+
+// A client attaching while the router closes (static realm or a realm made
+// from the template): either it is refused, or it is part of the shutdown;
+// nothing of the router survives Close.
+func vC06AttachRace(budget int) {
+	vGoroutineMark()
+	cfg := &Config{RealmConfigs: []*RealmConfig{{URI: "realm1", AnonymousAuth: true}}}
+	template := vBool("realm-template")
+	if template {
+		cfg.RealmTemplate = &RealmConfig{AnonymousAuth: true}
+	}
+	r := vNewRouter(cfg)
+	a := vAttach(r, "realm1", nil, 64)
+	vAssert("attached", a != nil)
+	realmURI := wamp.URI("realm1")
+	if template && vBool("attach-to-new-realm") {
+		realmURI = "realm.new"
+	}
+	cl, rp := transport.LinkedPeersQSize(8)
+	vSetPreempt(budget)
+	var aerr error
+	done := make(chan struct{})
+	go func() {
+		defer close(done)
+		go func() { cl.Send() <- &wamp.Hello{Realm: realmURI, Details: wamp.Dict{"roles": vAllRoles, "authid": "late"}} }()
+		aerr = r.AttachClient(rp, nil)
+	}()
+	r.Close()
+	vSetPreempt(0)
+	<-done
+	vQuiesce()
+	welcomed, told := false, false
+	for {
+		m, ok := <-cl.Recv()
+		if !ok {
+			told = true // transport closed
+			break
+		}
+		switch mm := m.(type) {
+		case *wamp.Welcome:
+			welcomed = true
+		case *wamp.Abort:
+			told = true
+		case *wamp.Goodbye:
+			if mm.Reason == wamp.ErrSystemShutdown {
+				told = true
+			}
+		}
+		if told {
+			break
+		}
+	}
+	vAssert("late-client-refused-or-shut-down", told)
+	vAssert("welcome-iff-attach-succeeded", welcomed == (aerr == nil))
+	vAssert("client-a-told-shutdown", vGotShutdownOrClosed(a))
+	vAssert("no-realm-survives-close", len(r.realms) == 0)
+	vAssert("no-router-goroutine-left", vGoroutinesSinceMark() <= 0)
+	if welcomed {
+		vCover("attached-during-close(schedule)")
+	}
+	vCover("attach-race-done")
+}
+
+func Harness_C06_AttachRace_2() { vC06AttachRace(2) }
+func Harness_C06_AttachRace_3() { vC06AttachRace(3) }
+
+// An attach request that arrives while the Close action is busy (held open
+// deterministically by a publication inside a handler): it is served after
+// Close finished its action, and must still be refused.
+func Harness_C06_AttachDuringClose() {
+	entered := make(chan struct{})
+	release := make(chan struct{})
+	ff := func(msg *wamp.Publish) PublishFilter {
+		if msg.Topic == "gate.topic" {
+			close(entered)
+			<-release
+		}
+		return nil
+	}
+	cfg := &Config{RealmConfigs: []*RealmConfig{{URI: "realm1", AnonymousAuth: true, PublishFilterFactory: ff}}}
+	template := vBool("realm-template")
+	if template {
+		cfg.RealmTemplate = &RealmConfig{AnonymousAuth: true}
+	}
+	vGoroutineMark()
+	r := vNewRouter(cfg)
+	a := vAttach(r, "realm1", nil, 64)
+	vAssert("attached", a != nil)
+	realmURI := wamp.URI("realm1")
+	if template && vBool("attach-to-new-realm") {
+		realmURI = "realm.new"
+	}
+	a.send(&wamp.Publish{Request: 2, Topic: "gate.topic", Arguments: wamp.List{"x"}})
+	<-entered // a's handler is busy: Close will have to wait for it
+	closed := make(chan struct{})
+	go func() {
+		r.Close()
+		close(closed)
+	}()
+	vQuiesce() // Close is now inside its router action, waiting for a's handler
+	cl, rp := transport.LinkedPeersQSize(8)
+	var aerr error
+	attached := make(chan struct{})
+	go func() {
+		defer close(attached)
+		go func() { cl.Send() <- &wamp.Hello{Realm: realmURI, Details: wamp.Dict{"roles": vAllRoles, "authid": "late"}} }()
+		aerr = r.AttachClient(rp, nil)
+	}()
+	vQuiesce() // the attach request is parked behind the Close action
+	close(release)
+	<-closed
+	<-attached
+	vQuiesce()
+	vAssert("attach-during-close-refused", aerr != nil)
+	welcomed := false
+	for {
+		m, ok := <-cl.Recv()
+		if !ok {
+			break
+		}
+		if _, is := m.(*wamp.Welcome); is {
+			welcomed = true
+		}
+		if _, is := m.(*wamp.Abort); is {
+			break
+		}
+	}
+	vAssert("late-client-not-welcomed", !welcomed)
+	vAssert("no-realm-survives-close", len(r.realms) == 0)
+	vAssert("no-router-goroutine-left", vGoroutinesSinceMark() <= 0)
+	vCover("attach-during-close-done")
 }
